@@ -603,6 +603,18 @@ func (g *gen) panicCheck(kind string, pos token.Pos, reach, cond, desc string) {
 	if cond == "true" {
 		return
 	}
+	if kind == "nil" && g.curBlock != nil {
+		// a pointer already checked on a dominating path needs no second obligation
+		if g.nilSeen == nil {
+			g.nilSeen = map[string][]*ssa.BasicBlock{}
+		}
+		for _, b := range g.nilSeen[cond] {
+			if b.Parent() == g.curBlock.Parent() && b.Dominates(g.curBlock) {
+				return
+			}
+		}
+		g.nilSeen[cond] = append(g.nilSeen[cond], g.curBlock)
+	}
 	if g.nopanic() {
 		n := g.count("nopanic." + kind)
 		g.oblige("nopanic", fmt.Sprintf("%s.nopanic.%s.%d", g.fnKey, kind, n), desc, pos, reach, cond)
@@ -755,7 +767,7 @@ func (g *gen) alloc(x *ssa.Alloc, st State, reach string) {
 	r := g.allocRef(st)
 	g.vals[x] = Val{T: r, S: "Int", GoT: x.Type()}
 	// zero-initialise
-	switch u := t.Underlying().(type) {
+	switch u := locUnder(t).(type) {
 	case *types.Struct:
 		ss := g.ctx.sortOf(t)
 		for i := 0; i < u.NumFields(); i++ {
@@ -784,7 +796,7 @@ func (g *gen) derefLoc(p Val, ptrType types.Type, st State, reach string, pos to
 	}
 	g.panicCheck("nil", pos, reach, "(not (= "+p.T+" 0))", "nil pointer dereference")
 	t := pt.Elem()
-	switch u := t.Underlying().(type) {
+	switch u := locUnder(t).(type) {
 	case *types.Struct:
 		return &Loc{Comp: "", Idx: []string{p.T}, Sort: g.ctx.sortOf(t), GoT: t} // whole struct at ref (Comp "" ⇒ per-field)
 	case *types.Array:
@@ -871,7 +883,7 @@ func (g *gen) indexAddr(x *ssa.IndexAddr, st State, reach string) {
 		es := g.ctx.sortOf(u.Elem())
 		g.panicCheck("index", x.Pos(), reach, "(and (<= 0 "+iv.T+") (< "+iv.T+" (s.len "+base.T+")))", "slice index in range")
 		comp := g.ctx.elemComp(es)
-		g.vals[x] = Val{T: "0", S: "Int", GoT: x.Type(), L: &Loc{Comp: comp, Idx: []string{"(s.ref " + base.T + ")", "(+ (s.off " + base.T + ") " + iv.T + ")"}, Sort: es, GoT: u.Elem()}}
+		g.vals[x] = Val{T: "0", S: "Int", GoT: x.Type(), L: &Loc{Comp: comp, Idx: []string{"(s.ref " + base.T + ")", "(idx (s.off " + base.T + ") " + iv.T + ")"}, Sort: es, GoT: u.Elem()}}
 	case *types.Pointer:
 		at := u.Elem().Underlying().(*types.Array)
 		es := g.ctx.sortOf(at.Elem())
